@@ -263,6 +263,10 @@ func (in *Interp) check(extra ...*sym.Term) (sym.Result, sym.Model) {
 		}
 		pr, pm, _ := sym.Portfolio(ts, in.ctx.Vars, in.cfg.PortfolioS)
 		in.Stats.PortfolioCalls++
+		if pr == sym.Unknown {
+			// second chance with four times the budget (a loaded machine, a hard query)
+			pr, pm, _ = sym.Portfolio(ts, in.ctx.Vars, 4*in.cfg.PortfolioS)
+		}
 		if pr != sym.Unknown {
 			in.Stats.PortfolioDecided++
 			return pr, pm
